@@ -781,6 +781,8 @@ class Component(composites.Composite, metaclass=ComponentType):
         This has no effect if the material thermal expansion has no dependence on component
         composition. If this is not desired, `self.p.numberDensities` can be set directly.
         """
+        if self.p.readOnly:
+            raise RuntimeError(f"Cannot change the number densities of read-only {self}.")
         # prepare to change the densities with knowledge that dims could change due to
         # material thermal expansion dependence on composition
         if len(self.p.numberDensities) > 0:
